@@ -93,6 +93,7 @@ class P(Prop):
         res_raws = [r for r in raws if rng.random() < 0.8] or raws[:1]
         mods = rng.sample(MODS, rng.randint(2, 5))
         evidence = []
+        keys = []
         idc = 0
         for f in range(nfiles):
             hdr = list(EV_BASE)
@@ -141,6 +142,8 @@ class P(Prop):
                     "retention time": "12.5",
                 }
                 idc += 1
+                if not mbr and scan != "-1":
+                    keys.append((raw, int(scan), m))
                 if "ms/ms scan number" in names and "scan number" in names:
                     # the code prefers "ms/ms scan number": make the other one misleading
                     vals["scan number"] = str(rng.randint(1, 4))
@@ -173,6 +176,8 @@ class P(Prop):
                 raw = rng.choice(res_raws)
                 scan = rng.randint(1, 4)
                 m = rng.choice(mods)
+                if keys and rng.random() < 0.5:  # aim at an evidence row
+                    raw, scan, m = rng.choice(keys)
                 vals = {
                     "psmid": f"{raw}_{scan_spelling(scan, rng)}_{rng.randint(2, 4)}_1",
                     "specid": f"{raw}_{scan_spelling(scan, rng)}_{rng.randint(2, 4)}_1",
